@@ -60,6 +60,7 @@ func vAppendEdits(dst *cdi.ContainerEdits, src *cdi.ContainerEdits) {
 }
 
 func H_C02_compose() {
+	vmapOrder(nondetChoice("maporder", 2)) // the result must not depend on map iteration order
 	c, keys := vMkCache(vparam("NSPECS"), true)
 	n := nondetLen("nreq", 1, vparam("NREQ"))
 	idx := make([]int, n)
